@@ -28,12 +28,19 @@ TYPES = {
     "Tree": {"ps": [], "cs": [{"n": "Leaf", "fs": [], "ls": None},
                               {"n": "Node", "fs": [TAdt("Tree"), INT, TAdt("Tree")], "ls": None}]},
     "Acct": {"ps": [], "cs": [{"n": "Acct", "fs": [BYTES, TAdt("Option", INT), TList(INT)], "ls": ["owner", "limit", "hist"]}]},
+    # decorated constructor tags (incl. one beyond the compact CBOR tag range) and two-level generics
+    "Tagged": {"ps": [], "cs": [{"n": "Noop", "fs": [], "ls": None}, {"n": "Halt", "fs": [INT], "ls": None, "tag": 200},
+                                {"n": "Go", "fs": [BYTES], "ls": None, "tag": 7}]},
+    "Rec5": {"ps": [], "cs": [{"n": "Rec5", "fs": [INT, BOOL], "ls": ["a", "b"], "tag": 5}], "type_tag": True},
+    "Inner": {"ps": ["b"], "cs": [{"n": "Inner", "fs": [TList(TVar("b"))], "ls": ["inner"]}]},
+    "Wrap": {"ps": ["a"], "cs": [{"n": "Wrap", "fs": [TAdt("Inner", TVar("a")), INT], "ls": ["w", "n"]}]},
 }
 
 
 def spec_types(types=TYPES):
     """the catalogue in the shape Aiken.tla wants"""
-    return {n: {"ps": d["ps"], "cs": [{"n": c["n"], "fs": c["fs"]} for c in d["cs"]]} for n, d in types.items()}
+    return {n: {"ps": d["ps"], "cs": [dict({"n": c["n"], "fs": c["fs"]}, **({"tag": c["tag"]} if "tag" in c else {})) for c in d["cs"]]}
+            for n, d in types.items()}
 
 
 def subst(ty, m):
@@ -144,7 +151,8 @@ def to_data(ty, v):
     if t == "Pair":
         return {"d": "L", "v": [to_data(ty["a"], v["a"]), to_data(ty["b"], v["b"])]}
     if t == "adt":
-        return {"d": "C", "tag": v["i"], "fs": [to_data(f, x) for f, x in zip(field_types(ty, v["i"]), v["fs"])]}
+        return {"d": "C", "tag": TYPES[ty["n"]]["cs"][v["i"]].get("tag", v["i"]),
+                "fs": [to_data(f, x) for f, x in zip(field_types(ty, v["i"]), v["fs"])]}
     raise ValueError(ty)
 
 
@@ -894,8 +902,14 @@ def render_types(types=TYPES):
         if d.get("builtin"):
             continue
         ps = "<%s>" % ", ".join(d["ps"]) if d["ps"] else ""
+        if d.get("type_tag"):      # record shorthand with the tag on the type
+            c = d["cs"][0]
+            out.append("@tag(%d)\npub type %s%s {\n%s\n}\n" % (c["tag"], n, ps, "\n".join("  %s: %s," % (l, ty_str(f)) for l, f in zip(c["ls"], c["fs"]))))
+            continue
         cs = []
         for c in d["cs"]:
+            if "tag" in c:
+                cs.append("  @tag(%d)" % c["tag"])
             if not c["fs"]:
                 cs.append("  " + c["n"])
             elif c["ls"]:
